@@ -70,7 +70,7 @@ pub fn explore(opts: &Opts) -> Explored {
                             for a_tracked in [true, false] {
                                 items.push(Item {
                                     sub: format!("broadcast/{}", op.name()),
-                                    prog: Program { leaves: leaves.clone(), nodes: nodes.clone() },
+                                    prog: Program { leaves: leaves.clone(), nodes: nodes.clone(), retrack: Vec::new() },
                                     mask: vec![a_tracked, true, false],
                                 });
                             }
@@ -97,7 +97,7 @@ pub fn explore(opts: &Opts) -> Explored {
                 nodes.push(PNode { op: OpK::Add, args: vec![3, 4] });
             }
             for m in [[false, false, true], [true, true, true]] {
-                items.push(Item { sub: "broadcast/matmul-bias".into(), prog: Program { leaves: leaves.clone(), nodes: nodes.clone() }, mask: m.to_vec() });
+                items.push(Item { sub: "broadcast/matmul-bias".into(), prog: Program { leaves: leaves.clone(), nodes: nodes.clone(), retrack: Vec::new() }, mask: m.to_vec() });
             }
         }
     }
